@@ -195,7 +195,9 @@ PROPS = {
         "assumptions": ["filters are pure functions of the object"],
     },
     "C06": {
-        "engines": [tree_engine("step,burst,burst", ("C06", "C02"), FSUB_KINDS, 1200, 20000)],
+        "engines": [tree_engine("step,burst,burst", ("C06", "C02"), FSUB_KINDS, 1200, 20000),
+                    # filtered nodes whose consumer does not read: their caches must go on following the parent
+                    tree_engine("overflow,stall", ("C06",), FSUB_KINDS, 200, 3000)],
         "rule": "tree engine, modes step+burst: random trees (<= 9 nodes, depth <= 4) of all six constructors + monitors under a real "
                 "controller; server creates/updates/deletes moving objects in and out of a 11-filter family, relists, Refilter sequences "
                 "(back to earlier, equal-by-construction, FN) also inside bursts with events in flight, Close. At every quiescent point "
@@ -205,7 +207,7 @@ PROPS = {
         "assumptions": ["no event buffer overflows (<= EventBufsiz/4 events in flight)", "filters are pure"],
     },
     "C07": {
-        "engines": [tree_engine("c07", ("C07",), FSUB_KINDS, 1936, 16000), tree_engine("step", ("C07",), FSUB_KINDS, 300, 6000),
+        "engines": [tree_engine("c07", ("C07",), FSUB_KINDS, 3136, 24000), tree_engine("step", ("C07",), FSUB_KINDS, 300, 6000),
                     tree_engine("burst", ("C07",), FSUB_KINDS, 500, 8000)],
         "rule": "tree engine mode c07: EXHAUSTIVE over 16 parent contents (subsets of 4 objects) x ordered pairs of the 11-filter family "
                 "(equal by construction, overlapping, disjoint, Null, All, FN) (thorough: plus triples), for SubscribeWithFilter, "
@@ -218,7 +220,13 @@ PROPS = {
     },
     "C08": {
         "engines": [tree_engine("step,step,burst", ("C08", "C06"), FSUB_KINDS + ("root", "sub", "clone", "mon"), 1200, 20000),
-                    ctrl_engine("", ("C08",), 300, 6000)],
+                    ctrl_engine("", ("C08",), 300, 6000),
+                    # a join is ready only when its source and its destination are
+                    {"go": "join", "bin": "kconc", "driver": "join",
+                     "actions": ("scenario", "jstart", "jsrc", "jmid", "jdst", "jrelease", "burst-begin", "burst-end", "jclose", "end"),
+                     "args_quick": ["-n", "240"], "args_thorough": ["-n", "6000"],
+                     "classify": ctrl_cls(("C08",)), "resets": ["scenario"],
+                     "nontrivial": lambda l: l.startswith("(jobs")}],
         "rule": "tree engine: half of the scenarios hold the first list (gate) and attach / Refilter(equal) / Refilter(new) / server "
                 "changes before releasing it, in random orders, immediate and deferred variants at every depth; Events() is drained "
                 "before Ready() is looked at; a node observed ready must already hold its filtered parent content; a deferred node "
@@ -271,6 +279,8 @@ PROPS = {
                     # shutdown at every point of a workload, also at the instant of readiness: no callback after Done, none if
                     # the publisher never became ready, OnInitialize never with the result of a failed List
                     tree_engine("c12", ("C16",), ("mon",), 1400, 14000),
+                    # monitors whose handler blocks while more than a buffer of events arrives
+                    tree_engine("overflow,stall", ("C16",), ("mon",), 200, 3000),
                     {"go": "typed", "bin": "kconc", "driver": "typed", "actions": ("scenario", "tstart", "tsrv", "tfref", "end"),
                      "args_quick": ["-n", "96"], "args_thorough": ["-n", "2400"], "classify": ctrl_cls(("C16",)), "resets": ["scenario"],
                      "nontrivial": lambda l: l.startswith("(tobs") and ("(create (obj" in l or "(update (obj" in l or "(delete (obj" in l)}],
@@ -334,6 +344,8 @@ PROPS = {
              "nontrivial": lambda l: l.startswith("(lin-end"), "classify": ctrl_cls(("C15",)), "resets": ["scenario"]},
             {"go": "cachediff", "driver": "cache-events", "classify": lambda i, a: "reject" if a.startswith("reject get") else "ignore",
              "nontrivial": has_events, "resets": ["new"]},
+            # the caches of filtered nodes are read while the node is refiltered: never a half-applied Refilter
+            tree_engine("step", ("C15",), (), 300, 5000),
         ],
         "rule": "lin engine: one writer moves the real cache through distinguishable complete states (every object of state k carries version k; "
                 "k%3+2 objects) by sync/refilter, 1-6 (thorough 1-12) reader goroutines call List()/Get() concurrently and scribble over "
